@@ -159,4 +159,22 @@ Proof.
     destruct Hh as (ans & t'' & ->). destruct h; inversion Hit; subst; eauto.
 Qed.
 
+(* C10: a failed write of a stream item drops that subscription (stream and connection) and nothing
+   else: the call list, the listener queue and every other parked stream are untouched, and all
+   events of the iteration concern the failing connection *)
+Theorem stream_write_failure_local (s : sv P) idx key x r :
+  nth_error (streams s) idx = Some (key, x) ->
+  existsb (Nat.eqb (wcnt x)) (wfail x) = true ->
+  exists s', on_stream P s idx (SItem r)
+             = (Progress, s', [TSYield (cid x) key (SItem r); TWriteFail (cid x) (WItem r);
+                               TSDrop (cid x) key; TDrop (cid x)]) /\
+    conns s' = conns s /\ accq s' = accq s /\ sst s' = sst s /\
+    streams s' = swap_remove idx (streams s) /\
+    (forall j y, j <> idx -> nth_error (streams s) j = Some y -> In y (streams s')).
+Proof.
+  intros En Hf. unfold on_stream, write_conn. rewrite En, Hf.
+  eexists. split; [reflexivity|]. cbn [conns accq sst streams set_streams set_lasts]. repeat split; auto.
+  intros j y Hne Hj. eapply swap_remove_keeps; eauto.
+Qed.
+
 End Pairs.
